@@ -61,9 +61,10 @@ template <class PT> bool check_query(vf::Ctx& c, const KdTree<PT>& tree, const P
 }
 
 // ---- small scope ---------------------------------------------------------------------------------------------------
-template <class PT> void small_scope(vf::Ctx& c, const char* tname, size_t block, size_t nblocks) {
+template <class PT> void small_scope(vf::Ctx& c, const char* tname, size_t block, size_t nblocks, bool th) {
   constexpr int DIM = PointTraits<PT>::DIM;
   std::vector<PT> lat;
+  const int maxm = th ? 6 : 5;
   if (DIM == 2) for (int x = 0; x < 3; ++x) for (int y = 0; y < 3; ++y) lat.push_back(mk<PT>({(double)x, (double)y}));
   else for (int x = 0; x < 2; ++x) for (int y = 0; y < 2; ++y) for (int z = 0; z < 2; ++z) lat.push_back(mk<PT>({(double)x, (double)y, (double)z}));
   std::vector<PT> queries;
@@ -72,7 +73,7 @@ template <class PT> void small_scope(vf::Ctx& c, const char* tname, size_t block
   else { for (double x : qs) for (double y : qs) for (double z : {-0.5, 0.5, 1.0}) queries.push_back(mk<PT>({x, y, z})); queries.push_back(mk<PT>({1e6, 1e6, 1e6})); queries.push_back(mk<PT>({0.5, -1e6, 0.5})); }
   // enumerate multisets (non-decreasing index tuples) of size 1..5
   size_t L = lat.size(), counter = 0;
-  for (int m = 1; m <= 5; ++m) {
+  for (int m = 1; m <= maxm; ++m) {
     std::vector<size_t> t(m, 0);
     for (;;) {
       if (counter++ % nblocks == block) {
@@ -81,7 +82,7 @@ template <class PT> void small_scope(vf::Ctx& c, const char* tname, size_t block
         for (int perm = 0; perm < 2; ++perm) {
           if (perm) std::reverse(pts.begin(), pts.end());
           KdTree<PT> tree(pts);
-          for (int leaf : {10, 1, 2}) {
+          for (int leaf : (th ? std::vector<int>{10, 1, 2, 3} : std::vector<int>{10, 1, 2})) {
             if (leaf != 10) rebuild(tree, leaf);
             std::string what = "multiset of lattice points " + vf::jarr(t) + (perm ? " reversed" : "") + " leaf=" + std::to_string(leaf);
             for (auto& q : queries) if (!check_query<PT>(c, tree, pts, q, pts.size(), what, tname)) break;
@@ -144,10 +145,10 @@ void vf_run(uint64_t idx, const std::string& tier, vf::Ctx& c) {
   if (idx < 8 * kSmallBlocks) {
     int t = idx / kSmallBlocks; size_t b = idx % kSmallBlocks;
     switch (t) {
-      case 0: small_scope<Eigen::Vector2d>(c, kTypes[0], b, kSmallBlocks); break; case 1: small_scope<Eigen::Vector2f>(c, kTypes[1], b, kSmallBlocks); break;
-      case 2: small_scope<HomogeneousCoordinates2d>(c, kTypes[2], b, kSmallBlocks); break; case 3: small_scope<HomogeneousCoordinates2f>(c, kTypes[3], b, kSmallBlocks); break;
-      case 4: small_scope<Eigen::Vector3d>(c, kTypes[4], b, kSmallBlocks); break; case 5: small_scope<Eigen::Vector3f>(c, kTypes[5], b, kSmallBlocks); break;
-      case 6: small_scope<HomogeneousCoordinates3d>(c, kTypes[6], b, kSmallBlocks); break; default: small_scope<HomogeneousCoordinates3f>(c, kTypes[7], b, kSmallBlocks);
+      case 0: small_scope<Eigen::Vector2d>(c, kTypes[0], b, kSmallBlocks, tier == "thorough"); break; case 1: small_scope<Eigen::Vector2f>(c, kTypes[1], b, kSmallBlocks, tier == "thorough"); break;
+      case 2: small_scope<HomogeneousCoordinates2d>(c, kTypes[2], b, kSmallBlocks, tier == "thorough"); break; case 3: small_scope<HomogeneousCoordinates2f>(c, kTypes[3], b, kSmallBlocks, tier == "thorough"); break;
+      case 4: small_scope<Eigen::Vector3d>(c, kTypes[4], b, kSmallBlocks, tier == "thorough"); break; case 5: small_scope<Eigen::Vector3f>(c, kTypes[5], b, kSmallBlocks, tier == "thorough"); break;
+      case 6: small_scope<HomogeneousCoordinates3d>(c, kTypes[6], b, kSmallBlocks, tier == "thorough"); break; default: small_scope<HomogeneousCoordinates3f>(c, kTypes[7], b, kSmallBlocks, tier == "thorough");
     }
   } else {
     int k = (int)idx - 8 * kSmallBlocks; int t = k / kNSets, si = k % kNSets;
@@ -167,6 +168,7 @@ std::string vf_case_params(uint64_t idx, const std::string& tier) {
 
 std::string vf_describe(const std::string& tier) {
   vf::JO o;
+  o.str("small_scope_thorough", "multisets up to 6 points, leaf sizes 10, 1, 2, 3");
   o.str("small_scope", "every multiset of 1..5 points of the 3x3 lattice (2D types, 2001 sets) / 2x2x2 lattice (3D types, 1286 sets), stored in both orders, index at leaf sizes 10, 1, 2; queries on {-0.5,0,0.5,1,1.5,2.5}^2 (3D: {-0.5..1.5}^2 x {-0.5,0.5,1}) plus 1e6 away; every k<=n");
   std::vector<std::string> names; for (auto& s : kSets) names.push_back(s.name);
   o.strs("structured_sets", names);
